@@ -86,7 +86,7 @@ var modelPaths = []string{"x", "x/y", "x/y/f", "x/g", "l"}
 var modelExpect = map[string]string{"x": "dir", "x/y": "dir", "x/y/f": "file", "x/g": "file", "l": "sym"}
 
 func modelDisks() []map[string]string {
-	kinds := []string{"none", "dir", "file+", "file-", "sym+", "sym-"}
+	kinds := []string{"none", "dir", "file+", "file-", "sym+", "sym-", "symdir"}
 	var out []map[string]string
 	var rec func(i int, cur map[string]string)
 	rec = func(i int, cur map[string]string) {
@@ -100,8 +100,12 @@ func modelDisks() []map[string]string {
 		}
 		p := modelPaths[i]
 		for _, k := range kinds {
-			// well-formed: something exists only under directories
+			// well-formed: something exists only under directories; a symlink to a look-alike directory only where
+			// the build has a directory
 			ok := true
+			if k == "symdir" && modelExpect[p] != "dir" {
+				continue
+			}
 			if k != "none" {
 				for q := p; strings.Contains(q, "/"); {
 					q = q[:strings.LastIndex(q, "/")]
@@ -200,6 +204,11 @@ func cmdC06(args []string) error {
 					}
 				case "sym-":
 					os.Symlink("wrong-destination", full)
+				case "symdir":
+					// a link that resolves to a directory elsewhere holding a healthy copy of the signed subtree
+					la := filepath.Join(root, "lookalike-"+strings.ReplaceAll(p, "/", "_"))
+					copyDir(filepath.Join(sdir, filepath.FromSlash(p)), la)
+					os.Symlink(la, full)
 				}
 				if modelExpect[p] == "dir" && d[p] != "dir" && d[p] != "none" {
 					line.DirSwap = true
@@ -223,7 +232,7 @@ func cmdC06(args []string) error {
 					line.Damage = []string{}
 				}
 				// kind swaps that hide whole subtrees
-				switch rng.Intn(5) {
+				switch rng.Intn(6) {
 				case 0:
 					os.RemoveAll(filepath.Join(dir, "nest", "a"))
 					os.WriteFile(filepath.Join(dir, "nest", "a"), []byte("a file where a directory with content is expected"), 0644)
@@ -233,6 +242,15 @@ func cmdC06(args []string) error {
 					os.RemoveAll(filepath.Join(dir, "nest", "a"))
 					os.Symlink("nowhere", filepath.Join(dir, "nest", "a"))
 					line.Damage = append(line.Damage, "dir->symlink(hides subtree):nest/a")
+					line.DirSwap = true
+				case 3:
+					// the directory replaced by a symlink that RESOLVES to a directory with the same content (the folder
+					// was moved to another disk and linked back): through the link every file looks healthy
+					la := filepath.Join(root, fmt.Sprintf("lookalike-%d", k))
+					copyDir(filepath.Join(dir, "nest", "a"), la)
+					os.RemoveAll(filepath.Join(dir, "nest", "a"))
+					os.Symlink(la, filepath.Join(dir, "nest", "a"))
+					line.Damage = append(line.Damage, "dir->symlink-to-lookalike-dir(hides subtree):nest/a")
 					line.DirSwap = true
 				case 2:
 					p := filepath.Join(dir, "nest", "a", "side.bin")
